@@ -27,6 +27,17 @@ Subset (anything else raises ParseError; nothing is guessed):
             Option methods is_some is_none unwrap expect unwrap_or map as_ref copied cloned,
             Vec / map adaptors iter into_iter keys values filter filter_map map collect len is_empty
             max_by_key pop, with panic-free closures `|pat| expr`
+  Result    functions returning Result<T, E> / anyhow::Result<T> become `outcome E' T`: `Ok(v)`, `return Err(e)` (from anywhere,
+            also inside loops), `e?` and `e.map_err(f)?` (f: a table variant or a closure), `.context("msg")` /
+            anyhow::ensure!/bail! whose message the target's table maps to a constructor of the model's error type,
+            `required(&opt)`; error enums are table enums (payloads the model does not keep are dropped)
+  loops     `for PAT in e { .. }` over a Vec / map / `.iter().enumerate()`: a fold over the elements in order; a body that
+            `return`s a value becomes fold_ret (stop at the first return); BTreeMap insert / contains_key / get /
+            into_values on a `let mut` local (association list sorted by key); Iterator any / filter with a closure
+            that may panic (any_m / filter_m), sum of u64 (overflow as for +), count, enumerate, Vec::get, v[i]
+  targets   may add an abstract input to a function (`extra_params`, e.g. the keccak digest), bind an expression to a term
+            of the model (`binds`), map operators of table types (OPS), constants (CONSTS) and callees (EXTERNS), and
+            pin the trailing state updates of a `&mut self` method whose decision is translated (`pinned_tail`)
 Each target is regenerated into coq/theories/Gen/<File>.v on every run of the owning check; the theorems
 Properties/C*Gen*.v state that the generated definitions equal the hand-written model."""
 import os
@@ -69,7 +80,47 @@ TYPES = {
                              "signature": ("tqagg", "validator::AggregateSignature")}},
     "ProposalJustification": {"kind": "enum", "coq": "justification", "src": MSG + "/v2/leader_proposal.rs",
                               "variants": {"Commit": ("JCommit", ["CommitQC"]), "Timeout": ("JTimeout", ["TimeoutQC"])}},
-    "Signers": {"kind": "opaque", "coq": "(list bool)"},
+    "Signers": {"kind": "newtype", "inner": "BitVec", "src": MSG + "/v2/consensus.rs"},      # a list of bools
+    "Claims": {"kind": "opaque", "coq": "unit"},
+    # Signed<V> { msg, key, sig } -> Model/Msgs.v signed (claimed key, message, attached signature = (signer, what was signed))
+    "Signed_ReplicaCommit": {"kind": "record", "coq": "(signed commit sigref)",
+                             "fields": {"msg": ("smsg", "ReplicaCommit"), "key": ("skey", "validator::PublicKey"), "sig": ("ssig", "Signature")}},
+    "Signed_ReplicaTimeout": {"kind": "record", "coq": "(signed timeout tsigref)",
+                              "fields": {"msg": ("smsg", "ReplicaTimeout"), "key": ("skey", "validator::PublicKey"), "sig": ("ssig", "Signature")}},
+    "PublicKey": {"kind": "opaque", "coq": "Z", "eqb": "Z.eqb"},
+    "CommitQCAddError": {"kind": "enum", "coq": "cqc_add_err", "src": MSG + "/v2/replica_commit.rs",
+                         "variants": {"SignerNotInCommittee": ("CASignerNotInCommittee", {"signer": "Box<validator::PublicKey>"}, "drop"),
+                                      "DuplicateSigner": ("CADuplicateSigner", {"signer": "Box<validator::PublicKey>"}, "drop"),
+                                      "BadSignature": ("CABadSignature", ["anyhow::Error"], "drop"),
+                                      "InconsistentMessages": ("CAInconsistentMessages", []),
+                                      "InvalidMessage": ("CAInvalidMessage", ["ReplicaCommitVerifyError"])}},
+    "TimeoutQCAddError": {"kind": "enum", "coq": "tqc_add_err", "src": MSG + "/v2/replica_timeout.rs",
+                          "variants": {"SignerNotInCommittee": ("TASignerNotInCommittee", {"signer": "Box<validator::PublicKey>"}, "drop"),
+                                       "DuplicateSigner": ("TADuplicateSigner", {"signer": "Box<validator::PublicKey>"}, "drop"),
+                                       "BadSignature": ("TABadSignature", ["anyhow::Error"], "drop"),
+                                       "InconsistentViews": ("TAInconsistentViews", []),
+                                       "InvalidMessage": ("TAInvalidMessage", ["ReplicaTimeoutVerifyError"])}},
+    # error enums of the verification functions -> the error types of Model/Msgs.v (payloads the model does not keep are dropped)
+    "ReplicaCommitVerifyError": {"kind": "enum", "coq": "view_err", "src": MSG + "/v2/replica_commit.rs",
+                                 "variants": {"BadView": ("{0}", ["anyhow::Error"])}},
+    "CommitQCVerifyError": {"kind": "enum", "coq": "cqc_verify_err", "src": MSG + "/v2/replica_commit.rs",
+                            "variants": {"InvalidMessage": ("CInvalidMessage", ["ReplicaCommitVerifyError"]),
+                                         "BadSignersSet": ("CBadSignersSet", []),
+                                         "NotEnoughWeight": ("CNotEnoughWeight", {"got": "u64", "want": "u64"}, "drop"),
+                                         "BadSignature": ("CBadSignature", ["anyhow::Error"], "drop")}},
+    "ReplicaTimeoutVerifyError": {"kind": "enum", "coq": "timeout_verify_err", "src": MSG + "/v2/replica_timeout.rs",
+                                  "variants": {"BadView": ("TBadView", ["anyhow::Error"]),
+                                               "InvalidHighVote": ("TInvalidHighVote", ["ReplicaCommitVerifyError"]),
+                                               "InvalidHighQC": ("TInvalidHighQC", ["CommitQCVerifyError"])}},
+    "TimeoutQCVerifyError": {"kind": "enum", "coq": "tqc_verify_err", "src": MSG + "/v2/replica_timeout.rs",
+                             "variants": {"BadView": ("QBadView", ["anyhow::Error"]),
+                                          "InconsistentView": ("QInconsistentView (Z.to_nat {0})", ["usize"]),
+                                          "InvalidMessage": ("QInvalidMessage (Z.to_nat {0}) {1}", ["usize", "ReplicaTimeoutVerifyError"]),
+                                          "WrongSignersLength": ("QWrongSignersLength (Z.to_nat {0})", ["usize"]),
+                                          "NoSignersAssigned": ("QNoSignersAssigned (Z.to_nat {0})", ["usize"]),
+                                          "OverlappingSignatureSet": ("QOverlapping (Z.to_nat {0})", ["usize"]),
+                                          "NotEnoughWeight": ("QNotEnoughWeight", {"got": "u64", "want": "u64"}, "drop"),
+                                          "BadSignature": ("QBadSignature", ["anyhow::Error"], "drop")}},
     "AggregateSignature": {"kind": "opaque", "coq": "(list (Z * sigref))"},
     "Schedule": {"kind": "opaque", "coq": "committee"},
     # engine block store
@@ -88,18 +139,68 @@ TYPES = {
 EXTERNS = {
     ("Last", "number"): dict(targets=["block_store"], template="{0}", params=[], ret="validator::BlockNumber", eff=False,
                              why="Model/BlockStore.v represents `last` by its block number"),
-    ("Signers", "weight"): dict(targets=["justification"], template="signers_weight {1} {0}", params=["Schedule"], ret="u64", eff=True,
-                                why="Model/Msgs.v signers_weight (asserts equal lengths, sums the weights)"),
+    ("Schedule", "index"): dict(targets=["qc_verify"], template="(option_map Z.of_nat (cindex {0} {1}))", params=["validator::PublicKey"],
+                                ret="Option<usize>", eff=False, why="Model/Msgs.v cindex: position of the key in the committee"),
+    ("Signed_ReplicaCommit", "verify"): dict(targets=["qc_verify"], params=[], ret="anyhow::Result<()>", eff=False,
+                                             template="(if ksig_eqb sigref_eqb (ssig {0}) (skey {0}, RCommit (smsg {0})) then Ok tt else Err tt)",
+                                             why="H-SIG: a signature verifies iff it was produced by the claimed key over the claimed message"),
+    ("Signed_ReplicaTimeout", "verify"): dict(targets=["qc_verify"], params=[], ret="anyhow::Result<()>", eff=False,
+                                              template="(if ksig_eqb tsigref_eqb (ssig {0}) (skey {0}, TTimeout (smsg {0})) then Ok tt else Err tt)",
+                                              why="H-SIG, as above"),
+    ("Schedule", "iter"): dict(targets=["qc_verify"], template="{0}", params=[], ret="Vec<ValidatorInfo>", eff=False,
+                               why="the committee of Model/Msgs.v is the list of the schedule's validators in key order"),
+    ("Schedule", "len"): dict(targets=["qc_verify"], template="(Z.of_nat (length {0}))", params=[], ret="usize", eff=False,
+                              why="the committee of Model/Msgs.v is the list of the schedule's validators"),
+    ("Schedule", "quorum_threshold"): dict(targets=["qc_verify"], template="(quorum {0})", params=[], ret="u64", eff=False,
+                                           why="Model/Msgs.v quorum = total - (total - 1) / 5; arithmetic is C07"),
+    ("Signers", "weight"): dict(targets=["justification", "qc_verify"], template="signers_weight {1} {0}", params=["Schedule"], ret="u64", eff=True,
+                                why="Model/Msgs.v signers_weight (asserts equal lengths, sums the weights); not trusted: the translated body of "
+                                    "Signers::weight equals it, theorem C04_generated_signers_weight (positive weights, total < 2^64)"),
     ("Signers", "count"): dict(targets=["justification"], template="(Z.of_nat (length (filter (fun b : bool => b) {0})))", params=[], ret="usize", eff=False,
-                               why="number of set bits of the signer bitmap"),
+                               why="number of set bits of the signer bitmap; not trusted: theorem C04_generated_signers_count"),
+    ("Duration", "seconds"): dict(targets=["std_conv"], self=False, template="(dur_seconds {0})", params=["i64"], ret="time::Duration",
+                                  eff=False, why="Model/NetInput.v dur_seconds"),
+    ("Duration", "nanoseconds"): dict(targets=["std_conv"], self=False, template="(dur_nanoseconds {0})", params=["i64"],
+                                      ret="time::Duration", eff=False, why="Model/NetInput.v dur_nanoseconds (truncating division)"),
+    ("Duration", "checked_add"): dict(targets=["std_conv"], template="(dur_checked_add {0} {1})", params=["time::Duration"],
+                                      ret="Option<time::Duration>", eff=False, why="Model/NetInput.v dur_checked_add (the `time` crate's carry rules)"),
+    ("Duration", "whole_seconds"): dict(targets=["std_conv"], template="(dsec {0})", params=[], ret="i64", eff=False, why="field of the model's dur"),
+    ("Duration", "subsec_nanoseconds"): dict(targets=["std_conv"], template="(dnano {0})", params=[], ret="i32", eff=False, why="field of the model's dur"),
+    ("BigUint", "from"): dict(targets=["leader"], self=False, template="{0}", params=["u64"], ret="BigUint", eff=False,
+                              why="BigUint::from(u64) is the same number"),
+    ("BigUint", "iter_u64_digits"): dict(targets=["leader"], template="(big_u64_digits {0})", params=[], ret="Vec<u64>", eff=False,
+                                         why="Lib/RustSem.v big_u64_digits: base 2^64 digits, least significant first, none for zero"),
     ("Schedule", "subquorum_threshold"): dict(targets=["justification"], template="(subquorum {0})", params=[], ret="u64", eff=False,
                                               why="Model/Msgs.v subquorum = total - 3 * ((total - 1) / 5); arithmetic is C07"),
 }
 
 
-def _types():
+# Constants of other crates, mapped to the hand model.
+CONSTS = {
+    ("time", "UNIX_EPOCH"): dict(targets=["std_conv"], coq="dur_zero", type="Utc",
+                                 why="Model/NetInput.v represents a Utc instant by its Duration since UNIX_EPOCH"),
+}
+
+# Operators on table types (std::ops impls that are not translated).
+OPS = {
+    ("Utc", "+"): dict(targets=["std_conv"], template="dur_add {0} {1}", eff=True, ret="Utc",
+                       why="Model/NetInput.v dur_add: checked add + expect (time::Utc + Duration)"),
+    ("Utc", "-"): dict(targets=["std_conv"], template="dur_sub {0} {1}", eff=True, ret="time::Duration",
+                       why="Model/NetInput.v dur_sub: checked sub + expect (Utc - Utc)"),
+    ("Signers", "&"): dict(targets=["qc_verify"], template="band {0} {1}", eff=False, why="Lib/ListW.v band: pointwise and (BitVec::and)"),
+    ("Signers", "|"): dict(targets=["qc_verify"], template="bor {0} {1}", eff=False, why="Lib/ListW.v bor: pointwise or (BitVec::or)"),
+    ("BigUint", "%"): dict(targets=["leader"], template="big_rem {0} {1}", eff=True,
+                           why="num_bigint Rem: panics on a zero divisor, else the mathematical remainder"),
+}
+
+
+def _types(target=None):
     out = {}
-    for n, s in TYPES.items():
+    merged = dict(TYPES)
+    if target:
+        for d in TARGETS[target]["deps"] + [target]:
+            merged.update(TARGETS[d].get("types", {}))
+    for n, s in merged.items():
         s = dict(s)
         if s["kind"] == "newtype":
             s["inner"] = parse_type_src(s["inner"])
@@ -139,7 +240,7 @@ def verify_type(n, s):
         if not d or d["kind"] != "record":
             raise ParseError(f"{src}: struct {n} not found")
         have = {f: parse_type_tokens(t, n) for f, t in d["fields"]}
-        want = {f: parse_type_src(t) for f, (_, t) in s["fields"].items()}
+        want = {f: parse_type_src(ft[1]) for f, ft in s["fields"].items()}
         if have != want:
             raise ParseError(f"{src}: fields of struct {n} differ from the translator's type table: "
                              f"source {sorted(have)} vs table {sorted(want)} (or a field type changed)")
@@ -148,8 +249,8 @@ def verify_type(n, s):
         d = it.enums.get(n)
         if not d:
             raise ParseError(f"{src}: enum {n} not found")
-        have = {v: [parse_type_tokens(t, n) for t in ts] for v, _, ts in d["variants"]}
-        want = {v: [parse_type_src(t) for t in ts] for v, (_, ts) in s["variants"].items()}
+        have = {v: ([parse_type_tokens(t, n) for t in ts] if kd != "record" else "record") for v, kd, ts in d["variants"]}
+        want = {v: ([parse_type_src(t) for t in vs[1]] if not isinstance(vs[1], dict) else "record") for v, vs in s["variants"].items()}
         if have != want:
             raise ParseError(f"{src}: variants of enum {n} differ from the translator's type table")
         s["derives"] = d["derives"]
@@ -161,6 +262,8 @@ def verify_type(n, s):
 BS = R + "/node/libs/engine/src/block_store.rs"
 HDR = R + "/node/components/network/src/mux/header.rs"
 LIM = R + "/node/libs/concurrency/src/limiter/mod.rs"
+SCHED = MSG + "/schedule.rs"
+STDCONV = R + "/node/libs/protobuf/src/std_conv.rs"
 
 TARGETS = {
     "numbers": {
@@ -222,6 +325,115 @@ TARGETS = {
             {"kind": "fn", "src": HDR, "type": "Header", "name": "stream_id"},
             {"kind": "fn", "src": HDR, "type": "Header", "name": "raw"},
             {"kind": "fn", "src": HDR, "type": "Header", "name": "From<[u8;2]>::from", "as": "from_bytes"},
+        ],
+    },
+    "leader": {
+        "out": "theories/Gen/Leader.v",
+        "requires": "Lib.Outcome Lib.U64 Lib.RustSem Model.Leader",
+        "deps": [],
+        "types": {
+            "Schedule": {"kind": "record", "coq": "schedule", "src": SCHED,
+                         "mk": "{{| svec := {vec}; stotal := {total_weight}; sleaders := map Z.to_nat {leaders}; "
+                               "ssel := {leader_selection}; sleader_weight := {leader_weight} |}}",
+                         "fields": {"vec": ("svec", "Vec<ValidatorInfo>"),
+                                    "indexes": (None, "BTreeMap<validator::PublicKey, usize>"),
+                                    "total_weight": ("stotal", "u64"),
+                                    "leaders": ("map Z.of_nat (sleaders {0})", "Vec<usize>"),
+                                    "leader_selection": ("ssel", "LeaderSelection"),
+                                    "leader_weight": ("sleader_weight", "u64")}},
+            "ValidatorInfo": {"kind": "record", "coq": "vinfo", "src": SCHED,
+                              "fields": {"key": ("vkey", "validator::PublicKey"), "weight": ("vweight", "u64"), "leader": ("vleader", "bool")}},
+            "LeaderSelection": {"kind": "record", "coq": "selection", "src": SCHED,
+                                "fields": {"frequency": ("sfreq", "u64"), "mode": ("smode", "LeaderSelectionMode")}},
+            "LeaderSelectionMode": {"kind": "enum", "coq": "mode", "src": SCHED,
+                                    "variants": {"RoundRobin": ("RoundRobin", []), "Weighted": ("Weighted", [])}},
+            "PublicKey": {"kind": "opaque", "coq": "Z", "eqb": "Z.eqb"},     # keys are ranks in byte order (Model/Leader.v)
+            "BigUint": {"kind": "opaque", "coq": "Z"},
+            "Keccak256": {"kind": "opaque", "coq": "unit"},
+        },
+        "items": [
+            {"kind": "fn", "src": SCHED, "type": "Schedule", "name": "get"},
+            # Schedule::new: the key -> index map is not part of the model (bound, i.e. pinned textually)
+            {"kind": "fn", "src": SCHED, "type": "Schedule", "name": "new", "err": "serr",
+             "anyhow": {"Duplicate key in validator Schedule": "EDuplicateKey",
+                        "Validator weight has to be a positive value": "EZeroWeight",
+                        "Sum of weights overflows in validator Schedule": "EOverflow",
+                        "Validator Schedule must contain at least one validator": "EEmpty",
+                        "Validator Schedule must contain at least one leader": "ENoLeader"},
+             "binds": [{"rust": "vec.iter().enumerate().map(|(i, v)| (v.key.clone(), i)).collect()", "coq": "tt", "type": "Claims"}]},
+            # the keccak digest of the turn number is an abstract input `digest` (as an unbounded integer, big endian)
+            {"kind": "fn", "src": SCHED, "type": "LeaderSelection", "name": "leader_weighted_eligibility",
+             "extra_params": [("digest", "BigUint")],
+             "binds": [{"rust": "Keccak256::new(&input_bytes)", "coq": "tt", "type": "Keccak256"},
+                       {"rust": "BigUint::from_bytes_be(hash.as_bytes())", "coq": "v_digest", "type": "BigUint"}]},
+            {"kind": "fn", "src": SCHED, "type": "Schedule", "name": "view_leader", "extra_params": [("digest", "BigUint")]},
+        ],
+    },
+    "qc_verify": {
+        "out": "theories/Gen/QCVerify.v",
+        "requires": "Lib.Outcome Lib.U64 Lib.RustSem Lib.ListW Model.Msgs",
+        "deps": [],
+        "types": {
+            # in Model/Msgs.v a validator is (key, weight); leader eligibility plays no role in certificates
+            "ValidatorInfo": {"kind": "record", "coq": "member", "src": SCHED,
+                              "fields": {"key": ("mkey", "validator::PublicKey"), "weight": ("mweight", "u64"), "leader": (None, "bool")}},
+        },
+        "items": [
+            # Signers::weight / count themselves: translated under the names gen_Signers_weight_impl / _count_impl and proved equal
+            # to what the callee table maps Signers::weight / count to (so those two table entries are theorems, not trust)
+            {"kind": "fn", "src": MSG + "/v2/consensus.rs", "type": "Signers", "name": "weight", "as": "weight_impl", "register": False},
+            {"kind": "fn", "src": MSG + "/v2/consensus.rs", "type": "Signers", "name": "count", "as": "count_impl", "register": False},
+            {"kind": "fn", "src": MSG + "/v2/consensus.rs", "type": "Signers", "name": "new"},
+            {"kind": "fn", "src": MSG + "/v2/consensus.rs", "type": "Signers", "name": "len"},
+            {"kind": "fn", "src": MSG + "/v2/consensus.rs", "type": "Signers", "name": "is_empty"},
+            {"kind": "fn", "src": MSG + "/v2/consensus.rs", "type": "View", "name": "verify", "err": "view_err",
+             "anyhow": {"Genesis mismatch. expected: {:?}, got: {:?}": "EGenesis", "Epoch number mismatch. expected: {}, got: {}": "EEpoch"}},
+            {"kind": "fn", "src": MSG + "/v2/replica_commit.rs", "type": "ReplicaCommit", "name": "verify"},
+            # symbolic cryptography (H-SIG): AggregateSignature::verify_messages over the selected (message, key) pairs is the
+            # multiset comparison of Model/Msgs.v; the iterator that selects the pairs is read as the model's selection
+            {"kind": "fn", "src": MSG + "/v2/replica_commit.rs", "type": "CommitQC", "name": "verify",
+             "binds": [{"rust": "validators_schedule.keys().enumerate().filter(|(i, _)| self.signers.0[*i]).map(|(_, pk)| (self.message.clone(), pk))",
+                        "coq": "tt", "type": "Claims"},
+                       {"rust": "self.signature.verify_messages(messages_and_keys)", "type": "anyhow::Result<()>",
+                        "coq": "(if mset_eqb (ksig_eqb sigref_eqb) (qagg v_self) (map (fun k => (k, RCommit (qmsg v_self))) "
+                               "(selected_keys v_validators_schedule (qsigners v_self))) then Ok tt else Err tt)"}]},
+            {"kind": "fn", "src": MSG + "/v2/replica_timeout.rs", "type": "ReplicaTimeout", "name": "verify"},
+            {"kind": "fn", "src": MSG + "/v2/replica_timeout.rs", "type": "TimeoutQC", "name": "verify",
+             "binds": [{"rust": "self.map.clone().into_iter().flat_map(|(msg, signers)| { validators_schedule.keys().enumerate()"
+                                ".filter(|(i, _)| signers.0[*i]).map(|(_, pk)| (msg.clone(), pk)).collect::<Vec<_>>() })",
+                        "coq": "tt", "type": "Claims"},
+                       {"rust": "self.signature.verify_messages(messages_and_keys)", "type": "anyhow::Result<()>",
+                        "coq": "(if mset_eqb (ksig_eqb tsigref_eqb) (tqagg v_self) (tqc_claimed v_validators_schedule (tqmap v_self)) "
+                               "then Ok tt else Err tt)"}]},
+            # add(): the accept / reject decision (with the error) is translated; the state updates that follow an accepted
+            # message are pinned as the exact last statements of the body
+            {"kind": "decision", "src": MSG + "/v2/replica_commit.rs", "type": "CommitQC", "name": "add", "as": "add_decision",
+             "pinned_tail": "self.signers.0.set(i, true); self.signature.add(&msg.sig);"},
+            {"kind": "decision", "src": MSG + "/v2/replica_timeout.rs", "type": "TimeoutQC", "name": "add", "as": "add_decision",
+             "pinned_tail": "let e = self.map.entry(msg.msg.clone()).or_insert_with(|| Signers::new(validators_schedule.len())); "
+                            "e.0.set(i, true); self.signature.add(&msg.sig);"},
+        ],
+    },
+    "std_conv": {
+        "out": "theories/Gen/StdConv.v",
+        "requires": "Lib.Outcome Lib.U64 Lib.RustSem Model.NetInput",
+        "deps": [],
+        "types": {
+            "Duration": {"kind": "opaque", "coq": "dur"},
+            "Utc": {"kind": "opaque", "coq": "dur"},       # an instant = its Duration since UNIX_EPOCH
+            # the prost message of Duration / Timestamp: two optional fields
+            "Proto": {"kind": "record", "coq": "(option Z * option Z)", "mk": "{seconds}, {nanos}",
+                      "fields": {"seconds": ("fst {0}", "Option<i64>"), "nanos": ("snd {0}", "Option<i32>")}},
+        },
+        "items": [
+            {"kind": "fn", "src": STDCONV, "type": "", "name": "duration_from_parts", "err": "Z",
+             "anyhow": {"duration out of range": "E_RANGE"}},
+            {"kind": "fn", "src": STDCONV, "type": "Duration", "name": "ProtoFmt::read", "as": "read", "err": "Z",
+             "anyhow": {"<required>": "0", "seconds": "E_MISSING_1", "nanos": "E_MISSING_2"}},
+            {"kind": "fn", "src": STDCONV, "type": "Duration", "name": "ProtoFmt::build", "as": "build"},
+            {"kind": "fn", "src": STDCONV, "type": "Utc", "name": "ProtoFmt::read", "as": "read", "err": "Z",
+             "anyhow": {"<required>": "0", "seconds": "E_MISSING_1", "nanos": "E_MISSING_2"}},
+            {"kind": "fn", "src": STDCONV, "type": "Utc", "name": "ProtoFmt::build", "as": "build"},
         ],
     },
     "limiter": {
@@ -291,12 +503,20 @@ def _sanitize(s):
 def translate(target, _done=None):
     """-> (Gallina text, summary, translator state). Raises ParseError when the source left the subset."""
     spec = TARGETS[target]
-    types = _types()
+    types = _types(target)
     externs = {}
     for key, x in EXTERNS.items():
-        externs[key] = Sig(None, [parse_type_src(p) for p in x["params"]], True, parse_type_src(x["ret"]), x["eff"], x["template"])
+        if target not in x["targets"] and not any(d in x["targets"] for d in spec["deps"]):
+            continue
+        externs[key] = Sig(None, [parse_type_src(p) for p in x["params"]], x.get("self", True), parse_type_src(x["ret"]), x["eff"], x["template"])
     tr = Translator(types, externs)
     tr.verify = verify_type
+    for (ty, op), x in OPS.items():
+        if target in x["targets"] or any(d in x["targets"] for d in spec["deps"]):
+            tr.ops[(ty, op)] = (x["template"], x["eff"], parse_type_src(x["ret"]) if x.get("ret") else None)
+    for (ty, name), x in CONSTS.items():
+        if target in x["targets"]:
+            tr.consts[(ty, name)] = (x["coq"], parse_type_src(x["type"]))
     srcs = set()
     all_items = []
     order = []
@@ -341,12 +561,17 @@ def translate(target, _done=None):
             body = parse_body_tokens(f["body"], what)
             binds = [{"ast": parse_expr_src(b["rust"], what), "coq": b["coq"], "type": parse_type_src(b["type"]),
                       "eff": b.get("eff", False)} for b in item.get("binds", [])]
+            extra = [(n, parse_type_src(t)) for n, t in item.get("extra_params", [])]
             if item["kind"] == "fn":
                 if self_mode == "refmut":
                     raise ParseError(f"{what}: `&mut self` method is outside the subset")
                 ps = ([("self", ("named", item["type"]))] if self_mode else []) + params
-                eff = tr.define_fn(what, item["type"], cn, ps, ret, body)
-                tr.fns[key] = Sig(cn, [t for _, t in params], bool(self_mode), ret, eff)
+                eff = tr.define_fn(what, item["type"], cn, ps, ret, body, binds=binds, anyhow=item.get("anyhow"),
+                                   err_coq=item.get("err"), extra=extra)
+                if item.get("register", True):
+                    tr.fns[key] = Sig(cn, [t for _, t in params], bool(self_mode), ret, eff, extra=[n for n, _ in extra])
+                if "::" in item["name"]:
+                    tr.fns[(item["type"], item["name"].split("::")[-1])] = tr.fns[key]     # trait method, callable by its short name
             elif item["kind"] == "state_update":
                 if self_mode != "refmut" or f["ret"]:
                     raise ParseError(f"{what}: expected `&mut self` and no return value")
@@ -364,11 +589,22 @@ def translate(target, _done=None):
                 ps = [(n, parse_type_src(t)) for n, t in item["params"]]
                 tr.define_fn(what, item["type"], cn, ps, ("bool",), w[1], binds=binds, as_expr=True)
             elif item["kind"] == "decision":
-                ps = [(n, parse_type_src(t)) for n, t in item["params"]]
+                if "params" in item:
+                    ps = [(n, parse_type_src(t)) for n, t in item["params"]]
+                else:
+                    ps = ([("self", ("named", item["type"]))] if self_mode else []) + params
                 allowed = [parse_expr_src(a, what) for a in item.get("allowed", [])]
-                if parse_type_src(item["ret"]) != ret:
+                if "ret" in item and parse_type_src(item["ret"]) != ret:
                     raise ParseError(f"{what}: return type changed")
-                tr.define_fn(what, item["type"], cn, ps, ret, body, binds=binds, allowed=allowed)
+                pinned = []
+                if item.get("pinned_tail"):
+                    pinned = parse_body_tokens(lex(item["pinned_tail"]), what)[1]
+                    if body[1][len(body[1]) - len(pinned):] != pinned:
+                        raise ParseError(f"{what}: the state updates are no longer exactly the last statements of the body, in the "
+                                         f"pinned order ({item['pinned_tail']})")
+                    body = ("block", body[1][:len(body[1]) - len(pinned)], body[2])     # translated without them
+                tr.define_fn(what, item["type"], cn, ps, ret, body, binds=binds, allowed=allowed,
+                             anyhow=item.get("anyhow"), err_coq=item.get("err"))
                 seen = [s[1] for s in body[1] if s[0] == "expr"]
                 for a in allowed:
                     if a not in seen:
@@ -491,6 +727,9 @@ def trusted_base(targets):
                 out.append(f"{i['type']}::{i['name']}: `{b['rust']}` is read as `{b['coq']}`")
             for a in i.get("allowed", []):
                 out.append(f"{i['type']}::{i['name']}: state update `{a}` is pinned textually, not translated")
+            if i.get("pinned_tail"):
+                out.append(f"{i['type']}::{i['name']}: only the accept/reject decision is translated; the state updates "
+                           f"`{i['pinned_tail']}` are pinned textually as the last statements of the body")
             if i.get("pin_body"):
                 out.append(f"{i['type']}::{i['name']}: loop body `{i['pin_body']}` is pinned textually, not translated")
     for (ty, m), x in EXTERNS.items():
@@ -502,14 +741,23 @@ def trusted_base(targets):
             touched |= translate(t)[2].verified
         except ParseError:
             pass
+    for (ty, name), x in CONSTS.items():
+        if any(t in ts for t in x["targets"]):
+            out.append(f"constant table: {ty}::{name} -> `{x['coq']}` ({x['why']})")
+    for (ty, op), x in OPS.items():
+        if any(t in ts for t in x["targets"]):
+            out.append(f"operator table: {ty} {op} -> `{x['template']}` ({x['why']})")
     tys = []
-    for n, sp in TYPES.items():
+    merged = {}
+    for t in ts:
+        merged.update(_types(t))
+    for n, sp in merged.items():
         if n not in touched:
             continue
         if sp["kind"] == "record":
-            tys.append(f"{n} -> {sp['coq']} (" + ", ".join(f"{f}->{p}" for f, (p, _) in sp["fields"].items()) + ")")
+            tys.append(f"{n} -> {sp['coq']} (" + ", ".join(f"{f}->{ft[0]}" for f, ft in sp["fields"].items()) + ")")
         elif sp["kind"] == "enum":
-            tys.append(f"{n} -> {sp['coq']} (" + ", ".join(f"{v}->{c}" for v, (c, _) in sp["variants"].items()) + ")")
+            tys.append(f"{n} -> {sp['coq']} (" + ", ".join(f"{v}->{vs[0]}" for v, vs in sp["variants"].items()) + ")")
     if tys:
         out.append("type table (field lists and field types are compared with the struct/enum declarations on every run; integer "
                    "newtypes are erased; hashes, signer bitmaps, signatures and the Schedule are the model's abstractions): " + "; ".join(tys))
